@@ -213,3 +213,234 @@ theorem Contiguous.dec_eq {B P : Nat} {m : Contiguous} (h : ValidCdf B P m.cdf) 
   cdfQuantile_eq h hP hq
 
 end CV.Cat
+
+/-! ## wrapped and unwrapped tables; the constructor -/
+namespace CV.Cat
+open CV
+
+/-- the wrapped vector for an unwrapped table -/
+def wrapCdf (B P : Nat) (ext : List Nat) : List Nat := ext.dropLast ++ [wrappingPow2 B P]
+
+/-- the unwrapped table of a valid probability list -/
+def extOf (qs : List Nat) : List Nat := psums 0 qs ++ [qs.sum]
+
+theorem extOf_valid {P : Nat} {qs : List Nat} (h : ValidProbs P qs) : ValidExt P (extOf qs) := by
+  obtain ⟨hlen, hpos, hsum⟩ := h
+  refine ⟨by simp [extOf]; omega, ?_, ?_, ?_⟩
+  · match qs, hlen with
+    | a :: rest, _ => simp [extOf, psums]
+  · unfold extOf
+    rw [List.getD_eq_getElem?_getD, List.getElem?_append_right (by simp)]
+    simp [hsum]
+  · unfold extOf
+    rw [List.pairwise_append]
+    refine ⟨psums_pairwise hpos, by simp, ?_⟩
+    intro a ha b hb
+    simp at hb
+    subst hb
+    have := psums_lt_of_pos (acc := 0) hpos a ha
+    omega
+
+theorem unwrap_wrapCdf {B P : Nat} {ext : List Nat} (hne : ext ≠ [])
+    (hlast : ext.getD (ext.length - 1) 0 = 2 ^ P) : unwrap P (wrapCdf B P ext) = ext := by
+  unfold unwrap wrapCdf
+  rw [List.dropLast_concat]
+  have : ext = ext.dropLast ++ [ext.getLast hne] := (List.dropLast_concat_getLast hne).symm
+  conv => rhs; rw [this]
+  congr 2
+  rw [List.getLast_eq_getElem]
+  rw [← hlast, getD_of_lt (by have := List.length_pos_iff.mpr hne; omega)]
+
+theorem wrapCdf_valid {B P : Nat} {ext : List Nat} (h : ValidExt P ext) :
+    ValidCdf B P (wrapCdf B P ext) := by
+  have hne : ext ≠ [] := by
+    intro hn; subst hn; have := h.1; simp at this
+  refine ⟨by simp [wrapCdf], ?_⟩
+  rw [unwrap_wrapCdf hne h.2.2.1]
+  exact h
+
+theorem wrapCdf_extOf {B P : Nat} (qs : List Nat) :
+    wrapCdf B P (extOf qs) = psums 0 qs ++ [wrappingPow2 B P] := by
+  simp [wrapCdf, extOf]
+
+/-- a valid `cdf` is the wrapped form of its unwrapped form -/
+theorem ValidCdf.eq_wrap {B P : Nat} {cdf : List Nat} (h : ValidCdf B P cdf) :
+    cdf = wrapCdf B P (unwrap P cdf) := by
+  have hne := h.ne_nil
+  unfold wrapCdf unwrap
+  rw [List.dropLast_concat]
+  have := (List.dropLast_concat_getLast hne).symm
+  conv => lhs; rw [this]
+  congr 2
+  have h1 := h.1
+  rw [List.getLast?_eq_some_getLast hne] at h1
+  simpa using h1
+
+
+/-! ### the constructor -/
+
+theorem triples_lefts {Sym : Type} {ss : List Sym} {qs : List Nat} (h : ss.length = qs.length) :
+    (triples ss qs).map (fun t => t.2.1) = psums 0 qs := by
+  unfold triples
+  have : (fun t : Sym × Nat × Nat => t.2.1) = Prod.fst ∘ Prod.snd := rfl
+  rw [this, ← List.map_map]
+  rw [List.map_snd_zip (by simp [h]), List.map_fst_zip (by simp)]
+
+theorem triples_syms {Sym : Type} {ss : List Sym} {qs : List Nat} (h : ss.length = qs.length) :
+    (triples ss qs).map (fun t => t.1) = ss := by
+  unfold triples
+  exact List.map_fst_zip (by simp [h])
+
+theorem triples_probs {Sym : Type} {ss : List Sym} {qs : List Nat} (h : ss.length = qs.length) :
+    (triples ss qs).map (fun t => t.2.2) = qs := by
+  unfold triples
+  have : (fun t : Sym × Nat × Nat => t.2.2) = Prod.snd ∘ Prod.snd := rfl
+  rw [this, ← List.map_map]
+  rw [List.map_snd_zip (by simp [h]), List.map_snd_zip (by simp)]
+
+theorem foldOp_pushLeft {Sym : Type} (t : List (Sym × Nat × Nat)) (cdf0 : List Nat) :
+    foldOp (fun (cdf : List Nat) (_ : Sym) left _ => some (cdf ++ [left])) cdf0 t =
+      some (cdf0 ++ t.map (fun t => t.2.1)) := by
+  induction t generalizing cdf0 with
+  | nil => simp [foldOp]
+  | cons x t ih =>
+    obtain ⟨s, l, p⟩ := x
+    simp only [foldOp, ih, List.map_cons, List.append_assoc, List.singleton_append]
+
+/-- **C19 for `ContiguousCategoricalEntropyModel::from_nonzero_fixed_point_probabilities`**:
+    acceptance implies that the table (with the inferred entry) is valid, and the model is its
+    wrapped cdf -/
+theorem Contiguous.fromNonzeroFixedPoint_some {B P : Nat} {probs : List Nat} {infer : Bool}
+    {m : Contiguous} (hP1 : 1 ≤ P) (hP : P ≤ B) (hprobs : ∀ p ∈ probs, p < 2 ^ B)
+    (h : Contiguous.fromNonzeroFixedPoint B P probs infer = some m) :
+    ∃ qs, ValidProbs P qs ∧ qs = (if infer then probs ++ [2 ^ P - probs.sum] else probs) ∧
+      m.cdf = wrapCdf B P (extOf qs) := by
+  unfold Contiguous.fromNonzeroFixedPoint at h
+  cases hacc : accumulate (Sym := Unit) B P (fun cdf _ left _ => some (cdf ++ [left])) (.rep ())
+      probs ([] : List Nat) infer with
+  | none => simp [hacc] at h
+  | some r =>
+    obtain ⟨rest, cdf⟩ := r
+    simp only [hacc, Option.some.injEq] at h
+    obtain ⟨qs, ss, hv, hqs, hts, hfold⟩ := accumulate_some hP1 hP hprobs hacc
+    have hlen := takeSyms_length hts
+    rw [foldOp_pushLeft, triples_lefts hlen] at hfold
+    simp only [List.nil_append, Option.some.injEq] at hfold
+    refine ⟨qs, hv, hqs, ?_⟩
+    rw [← h, wrapCdf_extOf, hfold]
+
+theorem Contiguous.fromNonzeroFixedPoint_valid {B P : Nat} {probs : List Nat} {infer : Bool}
+    {m : Contiguous} (hP1 : 1 ≤ P) (hP : P ≤ B) (hprobs : ∀ p ∈ probs, p < 2 ^ B)
+    (h : Contiguous.fromNonzeroFixedPoint B P probs infer = some m) : ValidCdf B P m.cdf := by
+  obtain ⟨qs, hv, _, hm⟩ := Contiguous.fromNonzeroFixedPoint_some hP1 hP hprobs h
+  rw [hm]
+  exact wrapCdf_valid (extOf_valid hv)
+
+
+/-! ### completeness: every valid table is accepted (D8: also with `infer_last_probability`
+at `P = B`) -/
+
+theorem accLoop_push (B : Nat) (ps : List Nat) (a : Acc (List Nat) Unit) (h : a.syms = .rep ()) :
+    accLoop B (fun cdf _ left _ => some (cdf ++ [left])) ps a =
+      some { accum := sumW B a.accum ps, laps := a.laps + lapsOf B a.accum ps,
+             num := a.num + ps.length, syms := .rep (), st := a.st ++ leftsW B a.accum ps } := by
+  induction ps generalizing a with
+  | nil => cases a; simp_all [accLoop, sumW, lapsOf, leftsW]
+  | cons p ps ih =>
+    rw [accLoop, h]
+    simp only [SymIter.next]
+    rw [ih _ rfl]
+    simp only [sumW, lapsOf, leftsW, List.length_cons, List.append_assoc, List.singleton_append,
+      Option.some.injEq, Acc.mk.injEq, and_true, true_and]
+    omega
+
+theorem wsub_total_one {B P : Nat} (hP1 : 1 ≤ P) (hP : P ≤ B) :
+    wsub B (wrappingPow2 B P) 1 = 2 ^ P - 1 := by
+  have hone : (1 : Nat) < 2 ^ B := Nat.one_lt_two_pow (by omega)
+  have h2P := two_pow_pos' P
+  rw [wsub_eq wrappingPow2_lt hone]
+  rcases Nat.lt_or_ge P B with hlt | hge
+  · rw [wrappingPow2_of_lt hlt, if_pos (by omega)]
+  · have : P = B := by omega
+    subst this
+    rw [wrappingPow2_self, if_neg (by omega)]; omega
+
+/-- what the loop computes on all but the last entry of a valid table -/
+theorem valid_init {B P : Nat} {init : List Nat} {last : Nat} (hP : P ≤ B)
+    (hv : ValidProbs P (init ++ [last])) :
+    lapsOf B 0 init = 0 ∧ sumW B 0 init = init.sum ∧ leftsW B 0 init = psums 0 init ∧
+      0 < init.sum ∧ init.sum + last = 2 ^ P ∧ 0 < last ∧ init ≠ [] := by
+  obtain ⟨hlen, hpos, hsum⟩ := hv
+  have hPB := pow_le_pow_of_le hP
+  simp only [List.sum_append, List.sum_singleton] at hsum
+  have hl0 : 0 < last := hpos last (by simp)
+  have hne : init ≠ [] := by
+    intro hn; subst hn; simp at hlen
+  obtain ⟨x, hx⟩ := List.exists_mem_of_ne_nil init hne
+  have hx0 := hpos x (by simp [hx])
+  have hxs := mem_le_sum hx
+  obtain ⟨a1, a2, a3⟩ := lapsOf_zero_of_valid (B := B) (acc := 0) (ps := init)
+    (fun p hp => hpos p (by simp [hp])) (by omega)
+  simp only [Nat.zero_add] at a2
+  exact ⟨a1, a2, a3, by omega, hsum, hl0, hne⟩
+
+theorem Contiguous.fromNonzeroFixedPoint_of_valid {B P : Nat} {qs : List Nat}
+    (hP : P ≤ B) (hv : ValidProbs P qs) :
+    Contiguous.fromNonzeroFixedPoint B P qs false = some { cdf := wrapCdf B P (extOf qs) } := by
+  have hlen := hv.1
+  rcases List.eq_nil_or_concat qs with hnil | ⟨init, last, hcat⟩
+  · subst hnil; simp at hlen
+  · rw [List.concat_eq_append] at hcat
+    subst hcat
+    obtain ⟨a1, a2, a3, a4, a5, a6, a7⟩ := valid_init hP hv
+    have hPB := pow_le_pow_of_le hP
+    have h2P := two_pow_pos' P
+    unfold Contiguous.fromNonzeroFixedPoint accumulate
+    rw [accLoop_push _ _ _ rfl]
+    simp only [Bool.false_eq_true, if_false, Nat.zero_add, Nat.add_zero, List.nil_append]
+    rw [if_neg (by omega)]
+    rw [sumW_append, lapsOf_append, leftsW_append, a1, a2, a3]
+    simp only [sumW, lapsOf, leftsW, Nat.zero_add, Nat.add_zero]
+    have hlastB : last < 2 ^ B := by omega
+    have hw := wadd_eq (B := B) (a := init.sum) (b := last) (by omega) hlastB
+    have hcond : ¬ (wadd B init.sum last ≠ wrappingPow2 B P ∨
+        (if wadd B init.sum last ≤ init.sum then 1 else 0) ≠ (if P = B then 1 else 0)) := by
+      rcases Nat.lt_or_ge P B with hlt | hge
+      · have := pow_lt_pow_of_lt hlt
+        rw [if_pos (by omega)] at hw
+        rw [hw, wrappingPow2_of_lt hlt, if_neg (by omega), if_neg (by omega)]
+        omega
+      · have : P = B := by omega
+        subst this
+        rw [if_neg (by omega)] at hw
+        rw [hw, wrappingPow2_self, if_pos (by omega), if_pos rfl]
+        omega
+    rw [if_neg hcond]
+    simp only [Option.some.injEq, Contiguous.mk.injEq]
+    rw [wrapCdf_extOf, psums_append]
+    simp [psums]
+
+theorem Contiguous.fromNonzeroFixedPoint_infer_of_valid {B P : Nat} {init : List Nat} {last : Nat}
+    (hP1 : 1 ≤ P) (hP : P ≤ B) (hv : ValidProbs P (init ++ [last])) :
+    Contiguous.fromNonzeroFixedPoint B P init true =
+      some { cdf := wrapCdf B P (extOf (init ++ [last])) } := by
+  obtain ⟨a1, a2, a3, a4, a5, a6, a7⟩ := valid_init hP hv
+  have hPB := pow_le_pow_of_le hP
+  have h2P := two_pow_pos' P
+  have hone : (1 : Nat) < 2 ^ B := Nat.one_lt_two_pow (by omega)
+  have hnum : 1 ≤ init.length := by
+    have := List.length_pos_iff.mpr a7; omega
+  unfold Contiguous.fromNonzeroFixedPoint accumulate
+  rw [accLoop_push _ _ _ rfl]
+  simp only [if_true, Nat.zero_add, List.nil_append, a1, a2, a3]
+  rw [if_neg (by omega)]
+  have hc : ¬ (wsub B init.sum 1 ≥ wsub B (wrappingPow2 B P) 1 ∨ 0 ≠ 0) := by
+    rw [wsub_total_one hP1 hP, wsub_of_le (by omega) (by omega)]
+    omega
+  rw [if_neg hc]
+  simp only [SymIter.next]
+  simp only [Option.some.injEq, Contiguous.mk.injEq]
+  rw [wrapCdf_extOf, psums_append]
+  simp [psums]
+
+end CV.Cat
